@@ -57,6 +57,7 @@ def branches (ctx : Bool) : Cond → Bool × Bool
   | .doneNil => (!ctx, ctx)
   | .doneNilOr _ => (true, ctx)
   | .casesNil => (true, true)
+  | .panicking => (true, true)
   | .other _ => (true, true)
 
 mutual
@@ -117,6 +118,40 @@ def exitsAt (r : Res) (final : Len) : Bool :=
 with an empty buffer, every way out leaves `final` -/
 def wellBehaved (r : Res) (sees : List Len) (final : Len) : Bool :=
   r.sels.all (fun l => sees.contains l) && r.bodies.all (· = .zero) && exitsAt r final && !r.outs.isEmpty
+
+/-! ## A panic that leaves an instruction, and is recovered
+
+`reflect.Select` panics on a send case whose channel is closed: the clause is left at the call,
+with the buffer as `reflect.Select` saw it (the lengths `sels`; likewise at a `panic(…)` statement
+of the clause). If the program recovers the panic the goroutine goes on with its next channel
+operation in the same VM. What stands between the two is the deferred function of
+`runRecoverable` (`Gen.CaseBuf.recoverHandler`), run with `panicking` true. -/
+
+/-- the handler on the way of a panic: the branches under `panicking` -/
+def onPanic : List S → List S
+  | [] => []
+  | .ite .panicking t _ :: rest => t ++ onPanic rest
+  | s :: rest => s :: onPanic rest
+
+/-- the handler when no panic is under way -/
+def onReturn : List S → List S
+  | [] => []
+  | .ite .panicking _ e :: rest => e ++ onReturn rest
+  | s :: rest => s :: onReturn rest
+
+/-- the buffer lengths with which a panic may leave the clause -/
+def panicLens (r : Res) : List Len := r.sels ++ (r.outs.filter (fun o => o.1 = .panic)).map (·.2)
+
+/-- `handler` run from `l` does nothing but leave the buffer at `final` -/
+def handlerLeaves (ctx : Bool) (handler : List S) (l final : Len) : Bool :=
+  let r := summary ctx handler l
+  r.sels.isEmpty && r.bodies.isEmpty && !r.outs.isEmpty && r.outs.all (fun o => o.1 = .fall && o.2 = final)
+
+/-- every panic that leaves `clause` (entered with `entry`) and meets `handler` ends with the
+buffer at `final`; `some` panic point exists (the statement is about something) -/
+def recoveredAt (ctx : Bool) (clause : List S) (entry : Len) (handler : List S) (final : Len) : Bool :=
+  let ls := panicLens (summary ctx clause entry)
+  !ls.isEmpty && ls.all (fun l => handlerLeaves ctx (onPanic handler) l final)
 
 /-! ## The policy of the code: where the buffer is emptied
 
